@@ -184,7 +184,7 @@ func newWorld(out *tr.W, cs tr.M, seed int64) *world {
 	w.p = &pipe{in: make(chan []byte, 64), closed: make(chan struct{})}
 	w.sc = sched.New()
 	w.sc.PassThrough = true
-	w.sc.Watch = []string{"github.com/gotd/td/mtproto.", "github.com/gotd/td/rpc.", "conndrv.(*world).client"}
+	w.sc.Watch = []string{"github.com/gotd/td/mtproto.", "github.com/gotd/td/rpc.", "main.(*world).client"}
 	opt := mtproto.Options{
 		DC: 2, Random: zeroRand{rand.New(rand.NewSource(seed + 1))}, Handler: handler{w},
 		Clock: w.clk, Key: w.key, Salt: int64(tr.Int(cs["salt0"])),
